@@ -1388,9 +1388,10 @@ FT_FULL = {"nonbridge_files": ("lib.rs", "structs.rs", "attrs.rs")}
 PLAN = {
     "quick": [("tiny", [FULL, PERMDEL]), ("basic", [FULL]), ("two_modules", [FULL]), ("cyclic", [FULL]),
               ("interleaved", [FULL]), ("results", [FULL]), ("strings", [FULL]), ("feature_tests", [FT_QUICK])],
-    "thorough": [("tiny", [FULL, REDUCED, PERMDEL]), ("feature_tests", [FT_FULL]), ("basic", [FULL, REDUCED]),
-                 ("two_modules", [FULL, REDUCED]), ("cyclic", [FULL, REDUCED]), ("interleaved", [FULL, REDUCED]),
-                 ("results", [FULL, REDUCED]), ("strings", [FULL, REDUCED])],
+    # cheapest / broadest first: if the wall cap cuts the run short, the largest hand seed and the depth-3 seed are what is missing
+    "thorough": [("feature_tests", [FT_FULL]), ("basic", [FULL, REDUCED]), ("two_modules", [FULL, REDUCED]),
+                 ("cyclic", [FULL, REDUCED]), ("results", [FULL, REDUCED]), ("strings", [FULL, REDUCED]),
+                 ("tiny", [FULL, REDUCED, PERMDEL]), ("interleaved", [FULL, REDUCED])],
 }
 WALL_CAP = {"quick": 85, "thorough": 540}
 
